@@ -54,7 +54,7 @@ def run(c):
     G = X + "TxHashSet::get_unspent"
     # --- apply
     AI = E + "apply_input"
-    c.r2("spent-once", AI, cond=r"^PMMR::prune\(arg0\.output_pmmr, SubWithOverflow\(arg2\.pos, 1\)\.0\)\.@Ok\.0$", fail_on=False, err="AlreadySpent",
+    c.r2("spent-once", AI, cond_atoms=["call:PMMR::prune", "arg0.output_pmmr", "arg2.pos", "re:\\.@(Ok|Continue)\\.0$"], fail_on=False, err="AlreadySpent",
          desc="apply_input: prune returning Ok(false) (not in the leaf set) is AlreadySpent")
     c.r1("prune-output", AI, PM + "prune", require_where=r"^arg0\.output_pmmr", via=2)
     c.r1("prune-rproof", AI, PM + "prune", require_where=r"^arg0\.rproof_pmmr, SubWithOverflow\(arg2\.pos, 1\)", via=2)
